@@ -85,7 +85,7 @@ def plan(tier):
              {"state": "Dense, 64 packed rows (one full bitmap word)", "written_row": "63+%d" % gap}, "grow_words")
     # (the ColumnStore-level `store_step` harness exists in c30.rs but gives no verdict in 15 min: String keys through
     #  the index map plus three set_property calls; it is not scheduled)
-    if tier != "quick":
+    if True:
         emit("c30_rebase_words", 200, "dense_rebase_words();",
              {"state": "Dense, 128 rows at base 64, one hole", "written_row": "0 (rebase by exactly one bitmap word)"}, "rebase_words")
     if tier != "quick":
@@ -117,7 +117,7 @@ def plan(tier):
         "fmt stubbed; drop glue skipped",
     ]
     p.bound = "Dense: base in %s, span in %s, every position class of the written row; Sparse: <= 3 entries; one step" % (list(bases), list(spans))
-    p.not_covered = ("spans above 3 except the packed 64-row growth shapes, String columns, ColumnStore beyond two keys and two rows, "
+    p.not_covered = ("spans above 3 except the packed 64-row growth and 128-row rebase shapes, String columns, ColumnStore beyond two keys and two rows, "
                      "the real 1024-entry promotion threshold, FxHashMap itself")
     p.per_harness_timeout = 900 if tier == 'quick' else 1500
     p.total_timeout = 2700 if tier == 'quick' else 7000
